@@ -59,28 +59,28 @@ type arrival struct {
 }
 
 type runner struct {
-	c        *Case
-	b        *bk.Broker
-	pub      *peer.Peer
-	p        *peer.Peer // subscriber
-	bconn    *memconn.Conn
-	online   bool
-	stored   bool // the broker holds a persistent session for "sub"
-	subscribed bool // the current session is known to hold the subscription
-	cleanConn  bool // the live (or last) connection used a clean session
-	setupDone  bool // initial connect+subscribe finished: the fault plan counts from here
-	base       int64 // operations of the first connection that precede the fault plan
-	consumed int64
-	faultHit bool
-	scanned  int // inbox index processed by the receiver model
-	msgs     []*message
-	byTag    map[string]*message
-	pending  []*arrival // unacknowledged deliveries on the live connection, arrival order
-	recSet   map[packet.ID]string // receiver session: ids whose QoS 2 PUBLISH was passed on, PUBCOMP not sent
-	app      map[string]int       // application level deliveries per tag
-	seen     map[string]bool      // tags whose PUBLISH reached the subscriber at least once
-	epoch    int64                // log seq of the last clean connect
-	resumes  int
+	c                 *Case
+	b                 *bk.Broker
+	pub               *peer.Peer
+	p                 *peer.Peer // subscriber
+	bconn             *memconn.Conn
+	online            bool
+	stored            bool  // the broker holds a persistent session for "sub"
+	subscribed        bool  // the current session is known to hold the subscription
+	cleanConn         bool  // the live (or last) connection used a clean session
+	setupDone         bool  // initial connect+subscribe finished: the fault plan counts from here
+	base              int64 // operations of the first connection that precede the fault plan
+	consumed          int64
+	faultHit          bool
+	scanned           int // inbox index processed by the receiver model
+	msgs              []*message
+	byTag             map[string]*message
+	pending           []*arrival           // unacknowledged deliveries on the live connection, arrival order
+	recSet            map[packet.ID]string // receiver session: ids whose QoS 2 PUBLISH was passed on, PUBCOMP not sent
+	app               map[string]int       // application level deliveries per tag
+	seen              map[string]bool      // tags whose PUBLISH reached the subscriber at least once
+	epoch             int64                // log seq of the last clean connect
+	resumes           int
 	faultWhileUnacked bool
 }
 
@@ -401,6 +401,11 @@ func (r *runner) connect(clean bool) *verdict {
 		cp.ClientID, cp.CleanSession = "sub", clean
 		ack, err := r.p.Connect(cp)
 		r.online = true
+		if err != nil {
+			// the attempt failed: the broker side may still be inside CONNECT
+			// processing (Setup); wait until it is over before reading the history
+			r.b.WaitClosed(r.bconn)
+		}
 		// did the backend set the session up (whether or not the CONNACK got through)?
 		if r.setupSince(mark) {
 			r.cleanConn = clean
